@@ -85,7 +85,10 @@ def build(ast, memo=None):
     if k == "str":
         r = ast["id"]
     elif k == "var":
-        r = puan.variable(ast["id"], tuple(ast["b"]))
+        # puan.variable(id, bounds[, dtype]) in one of its documented spellings (tuple / list / numpy array / puan.Bounds, with or
+        # without the matching explicit dtype), chosen from the data: the declared box is the same
+        from polyio import declare
+        r = declare(ast["id"], ast["b"], len(str(ast["id"])))
     else:
         ch = [build(c, memo) for c in ast.get("ch", [])]
         var = ast.get("id")
@@ -134,7 +137,10 @@ def build_default(ast):
     d = ast.get("default")
     if d is None:
         return None
-    return [x if isinstance(x, str) else puan.variable(x["id"], tuple(x["b"])) for x in d]
+    r = [x if isinstance(x, str) else puan.variable(x["id"], tuple(x["b"])) for x in d]
+    # `default` is documented as a list; any iterable is taken: a tuple, or a single-pass iterator / generator (key "dform")
+    f = ast.get("dform")
+    return tuple(r) if f == "tuple" else iter(r) if f == "iter" else (x for x in r) if f == "gen" else r
 
 def ast_json(ast):
     """JSON-serialisable copy of an AST (sharing is expanded)."""
